@@ -269,6 +269,9 @@ func corpus() []corpusCase {
 		{"RefinementBuilder.NewValue", "", `infinite bounds`, val(func() cty.Value {
 			return cty.UnknownVal(cty.Number).Refine().NumberRangeLowerBound(cty.NegativeInfinity, true).NumberRangeUpperBound(cty.PositiveInfinity, false).NewValue()
 		})},
+		{"RefinementBuilder.NewValue", "", `inclusive bounds parsed 0.3 .. float64 0.3: equal by documented equality, lower > upper exactly (tolerated, noted for C05)`, val(func() cty.Value {
+			return cty.UnknownVal(cty.Number).Refine().NumberRangeLowerBound(cty.MustParseNumberVal("0.3"), true).NumberRangeUpperBound(cty.NumberFloatVal(0.3), true).NewValue()
+		})},
 		{"Value.Add", "", `refined + refined`, val(func() cty.Value {
 			a := cty.UnknownVal(cty.Number).Refine().NotNull().NumberRangeInclusive(cty.NumberIntVal(1), cty.NumberIntVal(2)).NewValue()
 			return a.Add(a)
